@@ -21,6 +21,19 @@ from loki.types.symbol_table import SymbolTable, SymbolAttributes
 __all__ = ['Scope']
 
 
+class _ScopeParentProperty(WeakrefProperty):
+    """
+    :any:`WeakrefProperty` for :attr:`Scope.parent` that keeps the parent
+    of the scope's :any:`SymbolTable` in sync when the parent is assigned
+    """
+
+    def __set__(self, obj, value):
+        super().__set__(obj, value)
+        symbol_attrs = getattr(obj, 'symbol_attrs', None)
+        if isinstance(symbol_attrs, SymbolTable):
+            symbol_attrs.parent = getattr(value, 'symbol_attrs', None)
+
+
 @dataclass(frozen=True)
 class Scope:
     """
@@ -41,7 +54,7 @@ class Scope:
     """
 
     symbol_attrs: SymbolTable = field(default_factory=SymbolTable, init=False)
-    parent: InitVar[object] = WeakrefProperty(default=None, frozen=True)
+    parent: InitVar[object] = _ScopeParentProperty(default=None, frozen=True)
 
     def __post_init__(self, parent=None):
         self._reset_parent(parent)
@@ -161,8 +174,7 @@ class Scope:
         """
         self.__dict__['_parent'] = weakref.ref(parent) if parent is not None else None
 
-        if self.parent is not None:
-            self.symbol_attrs.parent = self.parent.symbol_attrs
+        self.symbol_attrs.parent = None if self.parent is None else self.parent.symbol_attrs
 
     def declare(self, name, dtype, fail=True, **kwargs):
         """
